@@ -30,10 +30,15 @@ def search_streams(tier, seed, diffs):
 
 
 MANIFEST = dict(
-    level_text=("Coq: executable model of the btor2 writer (Model/Btor2Ser.v) composed with the model of the reader; proved: the reader inverts the writer's spelling of every "
-                "operator node and of every literal (node-level round trip), and whatever the reader returns for the written text has the meaning btor2 assigns to that text (C08); "
-                "the whole-system round trip is tested, not proved. Tie to /repo: real serialize + parse_str on generated, parsed and all shipped systems on every run."),
-    level_note=("Partial: the statement roundtrip_sem (emission order, id cache, sort table over whole systems) is kept as a comment; names are string heuristics and are tested only. "
-                "Name-stability defects of the writer/reader pair are recorded as known findings (names:...); Model.serialize_named_v takes the writer variant "
-                "(driver constant writer_variant: writer_cur = /repo; writer_fix = prepared patches/0008 + 0010)."),
+    level_text=("Coq: executable model of the btor2 writer (Model/Btor2Ser.v) composed with the model of the reader; proved FOR ALL SYSTEMS: the whole-system round trip "
+                "C09_roundtrip_sem / C09_roundtrip_sem_repo (Spec/Btor2RoundTripSpec.v: the reader accepts what the writer prints, in both build profiles and for the reader of /repo, "
+                "and the system read back corresponds to demote(sy) position by position - same counts, symbols of the same types, and every init/next/output/bad/constraint "
+                "expression has, in every well-formed environment, the value of its original under the positionally induced environment), by an invariant of the writer's "
+                "emission loop (id cache, shared sort table, post-order emission, builders' normal forms, array-init broadcast, renaming and demotion by the reader); plus the node-level "
+                "lemmas and C09_reread_means_text_partial. Tie to /repo: real serialize + parse_str on generated, parsed and all shipped systems on every run."),
+    level_note=("Hypotheses of the round trip: sys_ok_weak (sys_ok for the reader of /repo), pairwise distinct declared symbols (counterexample without: C09_dup_symbol_diverges), "
+                "all widths below 2^32, fewer than 2^32 lines. C09_roundtrip_complete adds the converse direction for closed systems (every environment of sy has a partner environment of the "
+                "system read back) using C09_accepted_symbols_distinct (the symbols of EVERY accepted system are pairwise distinct: unique_name is fresh). "
+                "Not proved: names (roundtrip_full is false today): name-stability defects of the writer/reader pair are recorded as known findings (names:...); "
+                "Model.serialize_named_v takes the writer variant (driver constant writer_variant)."),
 )
